@@ -32,10 +32,15 @@ def Res.inst : Res → Option (Key × Inst)
 theorem Res.inst_plain {r : Res} (h : r.plain = true) : r.inst = none := by
   cases r <;> simp_all [Res.plain, Res.inst]
 
+/-- `ErrSingletonNotInitialized`: only the singleton read produces it, no frame carries it around -/
+def Res.isNI : Res → Bool
+  | .notInit => true
+  | _ => false
+
 /-- the frame below is not `S.Close` itself -/
 def K.top : K → Bool
   | .kids _ _ => false
-  | .ret r => r.plain
+  | .ret r => r.plain && !r.isNI
   | .scopes _ => true
 /-- the frame below is the children loop of `S.Close` -/
 def K.inS : K → Bool
@@ -48,14 +53,15 @@ def K.inP : K → Bool
   | .scopes _ => true
 def K.wf : K → Bool
   | .kids _ k => k.top
-  | .ret r => r.plain
+  | .ret r => r.plain && !r.isNI
   | .scopes _ => true
 
 def Pc.wf : Pc → Bool
-  | .cCas k | .cWait k | .cCancel k | .cTake k | .cKids _ k | .cTakeD k | .cDrain _ k | .cDetS k | .cNil k | .cErr k | .cSig k => k.top
+  | .cCas k | .cWait k | .cCancel _ k | .cTake k | .cKids _ k | .cTakeD k | .cDrain _ k | .cDetS k | .cNil k | .cErr k | .cSig k => k.top
   | .kCas _ k | .kWait _ k | .kDetP _ k | .kDetS _ k | .kSig _ k => k.wf
-  | .rChk k o | .rRead k o | .rMu k o | .rLock k o | .rRe k o | .rCtor k o | .rSet k o _ | .rTrk k o _ | .rSelf k o _
-  | .rUnl k o _ => !(o && k == .a)
+  | .rChk k o | .rRead k o | .rMu k o | .rLock k o | .rRe k o | .rCtor k o | .rSet k o _ | .rTrk k o _
+  | .rSelf k o _ => !(o && k == .a)
+  | .rUnl k o r => !(o && k == .a) && !r.isNI
   | _ => true
 
 theorem resume_wf {k : K} (h : k.wf = true) : (resume k).wf = true := by
@@ -64,21 +70,12 @@ theorem resume_wf {k : K} (h : k.wf = true) : (resume k).wf = true := by
 theorem resume_wf_top {k : K} (h : k.top = true) : (resume k).wf = true := by
   cases k <;> simp_all [resume, Pc.wf, K.top]
 
-theorem afterFail_wf (o : Bool) (r : Res) : (afterFail o r).wf = true := by
-  cases o <;> simp [afterFail, Pc.wf]
-theorem afterOk_wf (k : Key) (o : Bool) (i : Inst) : (afterOk k o i).wf = true := by
-  cases o <;> simp [afterOk, Pc.wf]
-theorem afterMiss_wf (k : Key) (o : Bool) (h : (!(o && k == .a)) = true) : (afterMiss k o).wf = true := by
-  cases k <;> cases o <;> simp_all [afterMiss, Pc.wf]
-theorem unlNext_wf (k : Key) (o : Bool) (r : Res) : (unlNext k o r).wf = true := by
-  cases r <;> simp [unlNext, afterFail_wf, afterOk_wf]
-
 theorem act_wf {c : Cfg} {s s' : Sh} {pc pc' : Pc} {sp : List Pc}
     (h : act c s pc = some (pc', s', sp)) (hw : pc.wf = true) : pc'.wf = true ∧ ∀ p ∈ sp, p.wf = true := by
   cases pc <;> act_cases h
   all_goals (first
-    | (simp_all [Pc.wf, K.wf, K.top, Res.plain]; done)
-    | (simp only [Pc.wf] at hw; simp [afterFail_wf, afterOk_wf, afterMiss_wf, unlNext_wf, resume_wf, resume_wf_top, hw]))
+    | (simp_all [Pc.wf, K.wf, K.top, Res.plain, Res.isNI]; done)
+    | (simp only [Pc.wf] at hw; simp_all [Pc.wf, K.wf, K.top, Res.plain, Res.isNI, resume_wf, resume_wf_top]; done))
 
 /-- every thread's pc is well-formed -/
 def WfSys (s : Sys) : Prop := ∀ th ∈ s.thr, th.pc.wf = true
@@ -98,7 +95,7 @@ theorem initial_wf {pc : Pc} (h : pc.initial = true) : pc.wf = true := by
   | rChk k o => cases o <;> simp_all [Pc.initial, Pc.wf]
   | cCas k =>
     cases k with
-    | ret r => cases r <;> simp_all [Pc.initial, Pc.wf, K.top, Res.plain]
+    | ret r => cases r <;> simp_all [Pc.initial, Pc.wf, K.top, Res.plain, Res.isNI]
     | _ => simp_all [Pc.initial]
   | _ => simp_all [Pc.initial, Pc.wf]
 
